@@ -72,6 +72,9 @@ class Worker:
             pass
 
 
+FAIL_FAST = {"on": False, "stop": threading.Event(), "dir": None}
+
+
 def run_pool(prop, specs, jobs, progress=True):
     q = queue.Queue()
     for s in specs:
@@ -83,6 +86,8 @@ def run_pool(prop, specs, jobs, progress=True):
     def loop(idx):
         w = None
         while True:
+            if FAIL_FAST["on"] and FAIL_FAST["stop"].is_set():
+                break  # --fail-fast: a violation has been replayed, the remaining harnesses are not run
             try:
                 spec = q.get_nowait()
             except queue.Empty:
@@ -112,6 +117,11 @@ def run_pool(prop, specs, jobs, progress=True):
                        "z3_seconds": 0, "wall": wall, "twin": bool(spec.get("twin"))}
                 w.kill()
                 w = None
+            if FAIL_FAST["on"] and res.get("verdict") == "refuted" and not res.get("twin") and res.get("fail"):
+                path, rep = run_replay(prop, res["params"], res["fail"], FAIL_FAST["dir"], res["id"].replace("/", "_"))
+                res["replay"], res["replay_path"] = rep, path
+                if rep.get("reproduced"):
+                    FAIL_FAST["stop"].set()
             with lock:
                 results.append(res)
                 if progress:
@@ -193,6 +203,8 @@ def main():
     ap.add_argument("--replay", default=None)
     ap.add_argument("--no-conform", action="store_true")
     ap.add_argument("--list", action="store_true")
+    ap.add_argument("--fail-fast", action="store_true", help="stop after the first replayed violation (used by tools/seed_regress.sh; the evidence "
+                    "file then covers only what ran)")
     args = ap.parse_args()
     prop = args.prop.upper()
     tier = args.tier if args.tier in ("quick", "thorough") else "quick"
@@ -231,6 +243,9 @@ def main():
         conf = conformance(prop)
         log("[%s] twin/stub conformance: %s" % (prop, "ok (%d comparisons)" % conf.get("n", 0) if conf.get("ok") else conf))
 
+    if args.fail_fast:
+        FAIL_FAST["on"] = True
+        FAIL_FAST["dir"] = os.path.join(EVDIR, "replays", prop)
     results, sites = run_pool(prop, allspecs, args.jobs)
     byid = {r["id"]: r for r in results}
 
@@ -257,7 +272,10 @@ def main():
         elif v == "refuted":
             nrep += 1
             rid = r["id"].replace("/", "_")
-            path, rep = run_replay(prop, r["params"], r["fail"], replay_dir, rid)
+            if "replay" in r and "replay_path" in r:
+                path, rep = r["replay_path"], r["replay"]  # already replayed by the pool (--fail-fast)
+            else:
+                path, rep = run_replay(prop, r["params"], r["fail"], replay_dir, rid)
             r["replay"] = rep
             r["replay_path"] = path
             if rep.get("reproduced"):
